@@ -49,6 +49,7 @@ import (
 	"sort"
 	"strings"
 	"testing"
+	"time"
 
 	"github.com/tochemey/goakt/v4/internal/verif/vsched"
 )
@@ -658,7 +659,11 @@ func TestVerifC46(t *testing.T) {
 			}
 		}},
 	}
-	// one bubble for the whole process (see zz_c45_common_test.go)
+	// one bubble for the whole process (see zz_c45_common_test.go); the small scenario first
+	scens[0], scens[1] = scens[1], scens[0]
+	// The engine's per-bubble wall limit assumes one execution per bubble; here the bubble lives as long
+	// as the process, and c45Budget's own watchdog bounds the real time of every single case.
+	vsched.HangAfter = 1000 * time.Hour
 	p := vsched.Bubble(t, func() {
 		for _, sc := range scens {
 			e := vsched.NewEnum(sc.name, map[string]any{"max_source_length": maxLen, "max_sources_or_branches": maxFan})
